@@ -357,11 +357,16 @@ struct RenderTableRow {
 
 // column index reached after the first k cells
 spec fn colno_upto(cells: Seq<RenderTableCell>, k: int) -> nat decreases k { if k <= 0 { 0 } else { colno_upto(cells, k - 1) + cells[k - 1].colspan as nat } }
-// the width a cell is given (C05/C06): stacked rows give every cell the full width; side by side a cell gets the
-// widths of the columns it spans plus the separators between them
+// number of columns in [a, b) that are drawn (a column without width is not drawn and has no separator)
+spec fn drawn(cs: Seq<usize>, a: int, b: int) -> nat decreases b - a { if b <= a { 0 } else { drawn(cs, a, b - 1) + if cs[b - 1] > 0 { 1nat } else { 0nat } } }
+proof fn lemma_drawn_le(cs: Seq<usize>, a: int, b: int) ensures drawn(cs, a, b) <= (if b >= a { b - a } else { 0 }) decreases b - a { if b > a { lemma_drawn_le(cs, a, b - 1); } }
+// the width a cell is given (C05/C06: every line of the table has the same width, bars in the same columns): stacked rows give
+// every cell the full width; side by side a cell gets the widths of the columns it spans plus the separators between the DRAWN ones
 spec fn cell_width(cs: Seq<usize>, colno: int, colspan: int, vertical: bool) -> nat {
-    if vertical { cs[colno] as nat } else { (rsum(cs, colno, colno + colspan) + colspan - 1) as nat }
+    if vertical { cs[colno] as nat } else { (rsum(cs, colno, colno + colspan) + drawn(cs, colno, colno + colspan) - 1) as nat }
 }
+// every spanned column is drawn (D15: the code counts one separator per spanned column, drawn or not)
+spec fn all_drawn(cs: Seq<usize>, colno: int, colspan: int) -> bool { drawn(cs, colno, colno + colspan) == colspan }
 spec fn cell_kept(cs: Seq<usize>, colno: int, colspan: int, vertical: bool) -> bool {
     if vertical { cs[colno] > 0 } else { rsum(cs, colno, colno + colspan) > 0 }
 }
@@ -399,7 +404,8 @@ impl RenderTableRow {
                 let j = kept_upto(self.cells@, self.col_sizes.unwrap()@, vertical, self.cells@.len() as int)[t]; //@w @C06 @C05 @C02 #cell_gets_its_columns
                 &&& (#[trigger] result@[t]).info matches RenderNodeInfo::TableCell(c) //@w @C06 @C05 @C02 #cell_gets_its_columns
                 &&& c.colspan == self.cells@[j].colspan && c.content == self.cells@[j].content //@w @C06 @C05 @C02 #cell_gets_its_columns
-                &&& c.col_width == Some(cell_width(self.col_sizes.unwrap()@, colno_upto(self.cells@, j) as int, self.cells@[j].colspan as int, vertical) as usize) //@w @C06 @C05 @C02 #cell_gets_its_columns
+                &&& (vertical || all_drawn(self.col_sizes.unwrap()@, colno_upto(self.cells@, j) as int, self.cells@[j].colspan as int)) ==> c.col_width == Some(cell_width(self.col_sizes.unwrap()@, colno_upto(self.cells@, j) as int, self.cells@[j].colspan as int, vertical) as usize) //@w @C06 @C05 @C02 kf=D15 #cell_gets_its_columns
+                &&& c.col_width == Some(cell_width(self.col_sizes.unwrap()@, colno_upto(self.cells@, j) as int, self.cells@[j].colspan as int, vertical) as usize) //@w @C06 @C05 kf=!D15 #cell_width_counts_drawn_separators_only
             }, //@w @C06 @C05 @C02 #cell_gets_its_columns
     {
         let mut result: Vec<RenderNode> = Vec::new();
@@ -419,7 +425,8 @@ impl RenderTableRow {
                     &&& 0 <= j < it.index@ //@w
                     &&& (#[trigger] result@[t]).info matches RenderNodeInfo::TableCell(c) //@w
                     &&& c.colspan == cells@[j].colspan && c.content == cells@[j].content //@w
-                    &&& c.col_width == Some(cell_width(col_sizes@, colno_upto(cells@, j) as int, cells@[j].colspan as int, vertical) as usize) //@w
+                    &&& (vertical || all_drawn(col_sizes@, colno_upto(cells@, j) as int, cells@[j].colspan as int)) ==> c.col_width == Some(cell_width(col_sizes@, colno_upto(cells@, j) as int, cells@[j].colspan as int, vertical) as usize) //@w kf=D15
+                    &&& c.col_width == Some(cell_width(col_sizes@, colno_upto(cells@, j) as int, cells@[j].colspan as int, vertical) as usize) //@w kf=!D15
                 }, //@w
         {
             let mut cell = cell0; //@w
